@@ -13,6 +13,14 @@ CHECKS = {
    text="Real XR reconciler (production wiring, both composers) over the simulated API server: for fixed scenario shapes every API-call index of every reconcile x 6 fault outcomes (incl. crash after the write took effect), then fault-free retries to quiescence; invariants checked by a post-write hook on every intermediate store state. Held on the executions produced, not a proof.",
    note="Trusted: " + SIM + "; scripted functions served over real gRPC; single XR; composed kinds without finalizers.",
    technique="runtime monitoring: post-write invariant hook + fault enumeration over API-call indices", ref="3/C01"),
+ "C03": dict(cat="exploration",
+   text="Real XR reconciler (production wiring) over the simulated API server: generated 1-4 step pipelines of scripted gRPC functions (errors, fatal results, requirements that never stabilise) after an initial composition and a perturbed observed state; oracle over the write log: failing pipelines write nothing on composed kinds and leave resourceRefs untouched, successful ones delete exactly observed-minus-desired (reference fold of the scripted steps); P&T template loss/rename likewise. Held on the generated cases.",
+   note="Trusted: " + SIM + "; the reference fold of scripted step add/del sets; requirement rounds scripted per reconcile.",
+   technique="runtime monitoring: write-log oracle (set equation deleted == observed minus desired) over generated pipelines", ref="3/C03"),
+ "C18": dict(cat="exploration",
+   text="Real ClusterRoleBackedValidator/Expand checked against an independent Kubernetes RuleAllows evaluator on the complete universe of concrete requests per (allow-list, request) pair (complete grid of single-token rules + generated pairs); real roles/definition/binding reconcilers over sim: any rejected request => no role write; system role rules bounded by owned/family CRDs + golden baseline + accepted requests; XRD roles name exactly the XRD's resources. Held on the generated inputs; exhaustive only for the single-token rule grid.",
+   note="Trusted: the concrete-request evaluator (pinned by c18/oracle_test.go), golden/rbac_baseline.json, the independent image-reference parser; literal '*' resourceNames are not generated (documented quirk).",
+   technique="runtime monitoring: differential check against a reference RBAC evaluator with per-pair exhaustive small-model enumeration", ref="3/C18"),
  "C11": dict(cat="exploration",
    text="Real xcrd.ForCompositeResource/ForCompositeResourceClaim, XRD Validate/ValidateUpdate and the real XRD admission webhook (over sim) run on thousands of generated XRDs and (old,new) pairs; outputs compared with an independent oracle and golden machinery schemas. Held on the generated inputs.",
    note="Trusted: golden/machinery_*.json (reviewed dump of the machinery schema); the generator's schema grammar; sim accepts any CRD body on dry-run so webhook denials come only from Crossplane's validation.",
